@@ -801,7 +801,19 @@ def run_sgpr_strategy(cell, g, fails, seed):
                     compare_pred(fails, "sgpr-strategy-titsias", out, mt, ct, (1e-7, 1e-7) if tol == TOL else tol, "Titsias 2009 eq. (6) literally")
                 # observation-level prediction adds the noise once
                 fails.check_close("sgpr-strategy-likelihood", model.likelihood(out).covariance_matrix, cov + s2 * torch.eye(m, dtype=F64), *tol)
-    return 5
+            # start from a non-initial state: the model that has just predicted (warm K_zz / K_zz^-1/2 / strategy caches) receives other
+            # inducing points and hyperparameters through load_state_dict while staying in eval mode; the SGPR equations hold for the new ones
+            with fails.guard("sgpr-strategy-reloaded"):
+                _, _, Z2, s2b, os2, const2, build2 = make_sgpr(n, d, M, g)
+                donor, _ = build2()
+                model.load_state_dict(donor.state_dict())
+                ref2 = base_ref(d, d > 1, outputscale=os2)
+                Kxz2, Ksz2, Kzz2, Kss2 = ref2(X, Z2), ref2(Xs, Z2), ref2(Z2, Z2), ref2(Xs, Xs)
+                td2 = (ref2(X, X).diagonal() - ST.nystrom(Kxz2, Kzz2, Kxz2.mT).diagonal()).clamp_min(0) if corr else None
+                c2x, c2s = torch.full((n,), const2, dtype=F64), torch.full((m,), const2, dtype=F64)
+                compare_pred(fails, "sgpr-strategy-reloaded", model(Xs), *ST.sgpr_predict(y, c2x, c2s, Kxz2, Ksz2, Kzz2, Kss2, s2b, td2), tol,
+                             "prediction after load_state_dict (eval mode, warm caches) != SGPR predictive equations for the loaded parameters")
+    return 7
 
 
 def run_rff_strategy(cell, g, fails, seed):
